@@ -98,6 +98,11 @@ def der_struct_mutations(data, walk):
         yield "cut_here", data[:off]
         yield "cut_after_tag", data[: off + 1]
         yield "cut_after_len", data[: off + hl]
+        if tag == 0x02:
+            # an INTEGER far larger than anything the structure calls for (2000 bytes ~ 4800 decimal digits)
+            big = b"\x01" + bytes(range(256)) * 8
+            yield "int_giant", head + bytes([tag]) + der_ref.enc_len(len(big)) + big + tail
+            yield "int_256bytes", head + bytes([tag]) + der_ref.enc_len(256) + b"\x7f" * 256 + tail
         if bl:
             yield "body_ff", head + data[off : off + hl] + b"\xff" * bl + tail
             yield "body_00", head + data[off : off + hl] + b"\x00" * bl + tail
@@ -145,3 +150,96 @@ def code_int_constants(*objs):
     for o in objs:
         visit(o)
     return out
+
+
+# ------------------------------------------------------------------ consistent DER tree edits
+
+
+def der_parse_tree(data, depth=0):
+    """Parse DER into a list of nodes [tag, children or None, body bytes, wrapper] - best effort:
+    constructed types and OCTET/BIT STRINGs whose content parses completely become inner nodes."""
+    from vf.ref import der_ref
+    nodes = []
+    buf = bytes(data)
+    while buf:
+        try:
+            tag, body, rest = der_ref.parse_tlv(buf)
+        except der_ref.DerError:
+            return None
+        kids, wrap = None, b""
+        if depth < 6:
+            if tag & 0x20 or tag == 0x04:
+                kids = der_parse_tree(body, depth + 1) if body else None
+            elif tag == 0x03 and body[:1] == b"\x00" and len(body) > 2 and body[1] == 0x30:
+                kids, wrap = der_parse_tree(body[1:], depth + 1), b"\x00"
+        nodes.append([tag, kids, body, wrap])
+        buf = rest
+    return nodes
+
+
+def der_serialise(nodes):
+    from vf.ref import der_ref
+    out = b""
+    for tag, kids, body, wrap in nodes:
+        if kids is not None:
+            body = wrap + der_serialise(kids)
+        out += bytes([tag]) + der_ref.enc_len(len(body)) + body
+    return out
+
+
+def der_tree_mutations(data):
+    """Edits of ONE node with all enclosing lengths re-encoded, so that the damage is not caught by the
+    outermost length check.  Yields (kind, bytes)."""
+    import copy
+    tree = der_parse_tree(data)
+    if not tree or der_serialise(tree) != bytes(data):
+        return
+    paths = []
+
+    def walk(nodes, path):
+        for i, nd in enumerate(nodes):
+            paths.append(path + (i,))
+            if nd[1] is not None:
+                walk(nd[1], path + (i,))
+    walk(tree, ())
+    giant = b"\x01" + bytes(range(256)) * 8
+    for path in paths:
+        def edit(fn):
+            t = copy.deepcopy(tree)
+            lst = t
+            for i in path[:-1]:
+                lst = lst[i][1]
+            fn(lst, path[-1])
+            return der_serialise(t)
+        node = tree
+        for i in path[:-1]:
+            node = node[i][1]
+        tag, kids, body, wrap = node[path[-1]]
+        if tag == 0x02:
+            yield "tree:int_giant", edit(lambda l, i: l.__setitem__(i, [0x02, None, giant, b""]))
+            yield "tree:int_zero_len", edit(lambda l, i: l.__setitem__(i, [0x02, None, b"", b""]))
+            yield "tree:int_negative", edit(lambda l, i: l.__setitem__(i, [0x02, None, b"\x80" + body[1:], b""]))
+            yield "tree:int_padded", edit(lambda l, i: l.__setitem__(i, [0x02, None, b"\x00" + body, b""]))
+            for v in (0, 2, 3, 127, 128, 255):
+                yield "tree:int_%d" % v, edit(lambda l, i, v=v: l.__setitem__(i, [0x02, None, bytes([v]) if v < 128 else b"\x00" + bytes([v]), b""]))
+        yield "tree:empty_body", edit(lambda l, i: l.__setitem__(i, [tag, None, b"", b""]))
+        yield "tree:drop", edit(lambda l, i: l.__delitem__(i))
+        yield "tree:dup", edit(lambda l, i: l.insert(i, copy.deepcopy(l[i])))
+        yield "tree:append_null", edit(lambda l, i: l.insert(i + 1, [0x05, None, b"", b""]))
+        yield "tree:prepend_int", edit(lambda l, i: l.insert(i, [0x02, None, b"\x01", b""]))
+        for nt_ in (0x02, 0x03, 0x04, 0x06, 0x30, 0xA0, 0xA1, 0x0C):
+            if nt_ != tag:
+                yield "tree:tag_%02x" % nt_, edit(lambda l, i, nt_=nt_: l.__setitem__(i, [nt_, l[i][1], l[i][2], l[i][3]]))
+        if kids is None and body:
+            yield "tree:body_plus1", edit(lambda l, i: l.__setitem__(i, [tag, None, body + b"\x00", b""]))
+            yield "tree:body_minus1", edit(lambda l, i: l.__setitem__(i, [tag, None, body[:-1], b""]))
+            yield "tree:body_ff", edit(lambda l, i: l.__setitem__(i, [tag, None, b"\xff" * len(body), b""]))
+            yield "tree:body_00", edit(lambda l, i: l.__setitem__(i, [tag, None, b"\x00" * len(body), b""]))
+            yield "tree:body_long", edit(lambda l, i: l.__setitem__(i, [tag, None, body * 3, b""]))
+        if tag == 0x06:
+            yield "tree:oid_unknown", edit(lambda l, i: l.__setitem__(i, [0x06, None, body[:-1] + bytes([body[-1] ^ 0x55 & 0x7F]), b""]))
+            yield "tree:oid_padded_arc", edit(lambda l, i: l.__setitem__(i, [0x06, None, body[:1] + b"\x80" + body[1:], b""]))
+            yield "tree:oid_truncated_arc", edit(lambda l, i: l.__setitem__(i, [0x06, None, body[:-1] + bytes([body[-1] | 0x80]), b""]))
+        if tag == 0x03 and body:
+            for u in (1, 7, 8, 255):
+                yield "tree:bitstring_unused_%d" % u, edit(lambda l, i, u=u: l.__setitem__(i, [0x03, None, bytes([u]) + (wrap and der_serialise(kids) or body[1:]), b""]))
